@@ -1,6 +1,7 @@
 import NirVerif.Properties.C05
 import NirVerif.Properties.C19
 import NirVerif.Generated.NeuronShapes
+import NirVerif.Generated.Guards
 
 /-! # C19 / C05 (continued) — the neuron constructors' shape check, as the source states it now
 
@@ -36,5 +37,38 @@ theorem neuron_generated (kind : String) (fields : List String)
   · exact Or.inl h
   · exact Or.inr (Or.inl h)
   · exact Or.inr (Or.inr h)
+
+/-! ## the guards at the top of the Affine / Linear and Conv constructors (translator item T10) -/
+
+/-- what the source states now: weight rank at least 2 for both dense classes; the padding guard of both convolution
+classes looks at `str` and `bytes` values and admits exactly `'same'` and `'valid'` -/
+theorem guards_generated :
+    Generated.minWeightRank = [("Affine", 2), ("Linear", 2)] ∧
+    Generated.paddingWhitelist = [("Conv1d", ["same", "valid"]), ("Conv2d", ["same", "valid"])] ∧
+    Generated.paddingGuardTypes = [("Conv1d", ["str", "bytes"]), ("Conv2d", ["str", "bytes"])] := by
+  decide +kernel
+
+/-- the weight-rank characterisation with the bound the source states -/
+theorem weight_rank_generated (kind : String) (k : Nat) (hk : (kind, k) ∈ Generated.minWeightRank)
+    (f : List (String × Val)) (dt : DType) (sh : List Nat) (d : Bytes)
+    (hw : lookup "weight" f = some (.arr dt sh d)) :
+    accepted (postInit kind f) ↔ k ≤ sh.length := by
+  rw [guards_generated.1] at hk
+  simp only [List.mem_cons, Prod.mk.injEq, List.mem_nil_iff, or_false] at hk
+  rcases hk with ⟨rfl, rfl⟩ | ⟨rfl, rfl⟩
+  · exact (weight_rank "Affine" (Or.inl rfl) f dt sh d hw).1
+  · exact (weight_rank "Linear" (Or.inr rfl) f dt sh d hw).1
+
+/-- the padding-string characterisation with the whitelist the source states: a string is accepted iff it is in it -/
+theorem padding_generated (kind : String) (wl : List String) (hk : (kind, wl) ∈ Generated.paddingWhitelist)
+    (f : List (String × Val)) (s : String)
+    (hp : lookup "padding" f = some (.str s)) (hi : lookup "input_shape" f = some .none)
+    (hs : (lookup "stride" f).isSome) (hd : (lookup "dilation" f).isSome) :
+    accepted (postInit kind f) ↔ s ∈ wl := by
+  rw [guards_generated.2.1] at hk
+  simp only [List.mem_cons, Prod.mk.injEq, List.mem_nil_iff, or_false] at hk
+  rcases hk with ⟨rfl, rfl⟩ | ⟨rfl, rfl⟩
+  · rw [(padding_string "Conv1d" (Or.inl rfl) f s hp hi hs hd).1]; simp
+  · rw [(padding_string "Conv2d" (Or.inr rfl) f s hp hi hs hd).1]; simp
 
 end NirVerif.C19
